@@ -529,6 +529,9 @@ func (rd *HandlingDataManager) initializePolicies() error {
 	return nil
 }
 
+// managed-endpoint expressions are regular expressions over "METHOD:::url"
+const anyMethodExpression = "[A-Z]+"
+
 func (rd *HandlingDataManager) buildHAProxyFlowsEndpointsRequest() *config.HAProxyEndpointsRequest {
 	if !rd.isStreamsEnabled {
 		return &config.HAProxyEndpointsRequest{}
@@ -558,7 +561,12 @@ func (rd *HandlingDataManager) buildHAProxyFlowsEndpointsRequest() *config.HAPro
 			reqCaptureForAll = reqCaptureForAll || (manageAll && requirements.IsReqCaptureRequired)
 		}
 
-		for _, method := range filters[0].GetSupportedMethods() {
+		methods := filters[0].GetSupportedMethods()
+		if len(filters[0].GetAllowedMethods()) == 0 {
+			// a filter without a method list accepts every method
+			methods = []string{anyMethodExpression}
+		}
+		for _, method := range methods {
 			managedEndpoints = append(managedEndpoints,
 				config.HaproxyEndpointFormat(method, filters[0].GetURL(), requirements))
 		}
